@@ -122,7 +122,7 @@ func newEnv(sp Spec) *env {
 		e.rng = rangeplugin.VerifInstance(e.db)
 		rangeplugin.VerifForget(e.db)
 		e.hs4 = []handler.Handler4{h4sid, hf, hr, h4dns}
-		for i := 0; i < sp.Prefill; i++ {
+		for i := 0; i < sp.Prefill && !e.locked(); i++ {
 			srv.Run4(net.Interface{}, e.hs4, Discover4([]byte{2, 0xff, 0, 0, 0, byte(i)}, uint32(0xff00+i), nil), 1, nil)
 		}
 	} else {
@@ -141,11 +141,15 @@ func newEnv(sp Spec) *env {
 		})
 		srv.PrefixGate.Unlock()
 		e.hs6 = []handler.Handler6{h6sid, hf, hp, h6dns}
-		for i := 0; i < sp.Prefill; i++ {
+		for i := 0; i < sp.Prefill && !e.locked(); i++ {
 			srv.Run6(net.Interface{}, e.hs6, Solicit6([]byte{2, 0xff, 0, 0, 0, byte(i)}, [3]byte{0xff, 0, byte(i)}, true, false, ""), 1, &net.UDPAddr{IP: net.ParseIP("2001:db8::99"), Port: 546})
 		}
 	}
 	return e
+}
+
+func (e *env) locked() bool {
+	return (e.rng != nil && e.rng.VerifLocked()) || (e.pd != nil && e.pd.VerifLocked())
 }
 
 func (e *env) close() {
@@ -227,6 +231,10 @@ func Solicit6(mac []byte, xid [3]byte, iapd, iana bool, hint string) []byte {
 // ---- reply summaries and per-reply oracles ----
 
 func (e *env) summarise() (string, []sched.Viol) {
+	if e.locked() {
+		// dumping the state would block forever on the mutex that was left held
+		return "LOCK-LEFT-HELD", []sched.Viol{{Sig: "lock-left-held", What: "the lease plugin's mutex is still held after all datagrams were handled: every later datagram blocks forever"}}
+	}
 	var viols []sched.Viol
 	var parts []string
 	byXid := map[string][]byte{}
@@ -438,6 +446,11 @@ func (sp Spec) Scenario() sched.Scenario {
 			permutations(idx, func(order []int) {
 				e := newEnv(sp)
 				for _, k := range order {
+					if e.locked() {
+						// a previous datagram left the lease plugin's mutex held: the next one
+						// would block forever (the per-execution oracle reports lock-left-held)
+						break
+					}
 					if k == n {
 						e.reload()
 						continue
@@ -482,6 +495,9 @@ func (sp Spec) FreeRun(expectReplies int) (string, bool) {
 		// as many replies as the datagrams get when handled one at a time in arrival order
 		e := newEnv(sp)
 		for _, d := range sp.Dgrams {
+			if e.locked() {
+				break
+			}
 			if sp.Proto == 4 {
 				o := srv.Run4(net.Interface{}, e.hs4, d, 1, &net.UDPAddr{IP: net.IPv4(10, 9, 9, 9), Port: 68})
 				e.sent = append(e.sent, o.Sent...)
